@@ -387,7 +387,7 @@ func (e *Env) resolveCallee(call *ast.CallExpr, st *State) callee {
 
 func (e *Env) evalCallWith(call *ast.CallExpr, st *State, args []Value) Value {
 	if (e.Top || e.litOfTop()) && !st.dead {
-		if ord, ok := e.C.callOrd[call.Pos()]; ok && e.C.Contract != nil && len(e.C.Contract.Ats) > 0 {
+		if ord, ok := e.C.callOrd[call.Lparen]; ok && e.C.Contract != nil && len(e.C.Contract.Ats) > 0 {
 			saved := e.C.specAt
 			e.C.specAt = call.Pos()
 			e.C.runAts(e, st, "before call "+ord, nil)
@@ -426,7 +426,7 @@ func (e *Env) evalCallWith(call *ast.CallExpr, st *State, args []Value) Value {
 		}
 	}
 	if (e.Top || e.litOfTop()) && !st.dead {
-		if ord, ok := e.C.callOrd[call.Pos()]; ok && e.C.Contract != nil && len(e.C.Contract.Ats) > 0 {
+		if ord, ok := e.C.callOrd[call.Lparen]; ok && e.C.Contract != nil && len(e.C.Contract.Ats) > 0 {
 			saved := e.C.specAt
 			e.C.specAt = call.End()
 			e.C.runAts(e, st, "call "+ord, nil)
@@ -604,7 +604,10 @@ func (c *FCtx) canInline(fi *FuncInfo) bool {
 		return false
 	}
 	if ct := c.W.Specs.ByKey[fi.Key]; ct != nil {
-		return false
+		// a contract that takes no part in this property's view does not stand in for the body
+		if c.LockSweep || c.PropFilter == "" || propView(ct, c.PropFilter) != nil {
+			return false
+		}
 	}
 	if c.LockSweep {
 		// in the lock sweep only callees that touch locks need to be looked into; the others are summarised by
@@ -1104,7 +1107,7 @@ func (c *FCtx) assumeAllocated(st *State, v Value, t types.Type, alloc *Term) {
 }
 
 func (c *FCtx) callOrdinal(call *ast.CallExpr, cl callee) string {
-	if s, ok := c.callOrd[call.Pos()]; ok {
+	if s, ok := c.callOrd[call.Lparen]; ok {
 		return s
 	}
 	name := cl.fn.Name()
